@@ -62,7 +62,7 @@ def ref_timetable(p, seq):
         oc = seq[k]
         starts.append(t)
         dur = oc['d']
-        if dur > T:
+        if T is not None and dur > T:  # timeout=None: attempts are never cut off
             end, kind = t + T, 'timeout'
         else:
             end, kind = t + dur, oc['k']
@@ -119,7 +119,7 @@ def exec_retry(case) -> Result:
         except BaseException as ex:
             out['res'] = ('raise', ex)
         out['end'] = loop.time()
-        await asyncio.sleep(p['wait'] * max(1.0, p['backoff']) ** (p['retries'] + 1) + p['timeout'] + 50)  # would a further attempt start?
+        await asyncio.sleep(p['wait'] * max(1.0, p['backoff']) ** (p['retries'] + 1) + (p['timeout'] or 40.0) + 50)  # would a further attempt start?
 
     try:
         loop.run_until_complete(main())
@@ -177,7 +177,7 @@ def exec_retry(case) -> Result:
                     bad('attempt-start-instant', k=k, got=a, want=starts[k])
                     break
     res.nontrivial = True
-    res.fingerprint = hashlib.blake2b(json.dumps([p, [(o['k'], o['d'] > p['timeout']) for o in seq], cancel_at is not None and round(cancel_at, 6)], sort_keys=True).encode(), digest_size=8).hexdigest()
+    res.fingerprint = hashlib.blake2b(json.dumps([p, [(o['k'], p['timeout'] is not None and o['d'] > p['timeout']) for o in seq], cancel_at is not None and round(cancel_at, 6)], sort_keys=True).encode(), digest_size=8).hexdigest()
     res.sample = {'params': p, 'outcomes': seq, 'cancel_at': cancel_at, 'observed_call_instants': calls, 'reference_call_instants': starts, 'observed': w['res'], 'reference': final}
     return res
 
@@ -207,19 +207,20 @@ class RetryFamily(Family):
                         i += 1
                         yield {'family': self.name, 'i': i, 'p': p, 'seq': seq, 'exhaustive': True}
         # cancellation at every instant of sampled cases; random large cases
-        n_rand = 300 if tier == 'quick' else 6000
+        n_rand = 1500 if tier == 'quick' else 20000
         for j in range(n_rand):
             rng = random.Random(f'c19/{seed}/{j}')
             retries = rng.randint(0, 7)
-            p = {'retries': retries, 'wait': rng.choice([0.0, 0.1, 0.75, 3.0]), 'backoff': rng.choice([0.25, 0.5, 1.0, 1.5, 2.0, 3.0]), 'timeout': rng.choice([0.5, 1.0, 5.0]), 'retry_on': rng.choice([None, 'listed', 'sub', 'oserr'])}
+            p = {'retries': retries, 'wait': rng.choice([0.0, 0.1, 0.75, 3.0]), 'backoff': rng.choice([0.25, 0.5, 1.0, 1.5, 2.0, 3.0]), 'timeout': rng.choice([0.5, 1.0, 5.0, None]), 'retry_on': rng.choice([None, 'listed', 'sub', 'oserr'])}
             seq = []
             for k in range(retries + 1):
                 c = rng.choice(['ok', 'listed', 'listed', 'listed', 'unlisted', 'overrun'])
-                seq.append({'k': 'ok' if c == 'overrun' else c, 'd': p['timeout'] + rng.choice([0.5, 3.0]) if c == 'overrun' else rng.choice([0.0, 0.01, 0.3]), 'sub': rng.random() < 0.3})
+                # (with timeout=None a very long attempt is simply a long attempt)
+                seq.append({'k': 'ok' if c == 'overrun' else c, 'd': (p['timeout'] or 30.0) + rng.choice([0.5, 3.0]) if c == 'overrun' else rng.choice([0.0, 0.01, 0.3]), 'sub': rng.random() < 0.3})
             i += 1
             yield {'family': self.name, 'i': i, 'p': p, 'seq': seq}
             starts, final, end = ref_timetable(p, seq)
-            inst = sorted(set(starts + [end] + [s + min(o['d'], p['timeout']) for s, o in zip(starts, seq)]))
+            inst = sorted(set(starts + [end] + [s + (o['d'] if p['timeout'] is None else min(o['d'], p['timeout'])) for s, o in zip(starts, seq)]))
             pts = set()
             for a, b in zip(inst, inst[1:] + [inst[-1] + 1.0]):
                 pts.update([max(0.0, a - 1e-4), a + 1e-4, (a + b) / 2])
@@ -325,7 +326,7 @@ class RetryConcurrentFamily(Family):
     props = ('C19',)
 
     def cases(self, seed, tier, prop):
-        n = 300 if tier == 'quick' else 6000
+        n = 1500 if tier == 'quick' else 20000
         for j in range(n):
             rng = random.Random(f'c19m/{seed}/{j}')
             retries = rng.randint(1, 4)
@@ -433,6 +434,8 @@ def key_of(scope: str) -> str:
         return 'c:KA'
     if scope == 'c:B1':
         return 'c:KB'
+    if scope == 'c:D1':
+        return 'c:KA@other-module'
     if scope == 'g2':
         return 'g'  # two functions with one semaphore_name share one global semaphore
     return scope
@@ -500,7 +503,17 @@ def exec_sem(case) -> Result:
     async def gf2(i):  # a different function that names the same semaphore: shares its slots
         return await body(i)
 
-    objs = {'A1': KA(), 'A2': KA(), 'B1': KB()}
+    # a second, unrelated class that happens to carry the same __name__ (think `class Client` in two modules): its 'class'
+    # scope is its own
+    class _Other:
+        @deco('class')
+        async def cm(self, i):
+            return await body(i)
+
+    _Other.__name__ = 'KA'
+    _Other.__qualname__ = 'KA'
+    _Other.__module__ = 'some.other.module'
+    objs = {'A1': KA(), 'A2': KA(), 'B1': KB(), 'D1': _Other()}
 
     def call(i):
         sc = callers[i]['scope']
@@ -658,7 +671,7 @@ class SemFamily(Family):
             lax = rng.random() < 0.5
             sem_to = rng.choice([0.05, 0.5, 2.0, 50.0])
             ncall = rng.randint(2, 9)
-            scopes = rng.choice([['g'], ['g', 'g2'], ['c:A1', 'c:A2'], ['c:A1', 'c:B1'], ['s:A1', 's:A2'], ['g', 'c:A1', 's:A1'], ['g', 'g2', 's:A1']])
+            scopes = rng.choice([['g'], ['g', 'g2'], ['c:A1', 'c:A2'], ['c:A1', 'c:B1'], ['s:A1', 's:A2'], ['g', 'c:A1', 's:A1'], ['g', 'g2', 's:A1'], ['c:A1', 'c:D1'], ['c:A1', 'c:A2', 'c:D1']])
             callers = []
             for k in range(ncall):
                 sc = rng.choice(scopes)
